@@ -338,7 +338,7 @@ def main():
     seed = int(sys.argv[1])
     tier = sys.argv[2]
     outdir = sys.argv[3]
-    pos = positives(seed, 60 if tier == "thorough" else 12)
+    pos = positives(seed, 200 if tier == "thorough" else 12)
     neg = negatives(seed)
     os.makedirs(outdir + "/pos", exist_ok=True)
     os.makedirs(outdir + "/neg", exist_ok=True)
